@@ -518,6 +518,7 @@ type Clause struct {
 type LoopSpec struct {
 	Invariants []*Clause
 	Decreases  *Clause
+	Iteration  []*Clause // "loop N iteration [l] e": holds at every back edge (loopold = state at the loop head); not assumed
 }
 
 type SpecFunc struct {
@@ -850,6 +851,8 @@ func (cs *ContractSet) parseContractText(pkgPath, file string, lines []string, l
 					ls.Invariants = append(ls.Invariants, c)
 				case "decreases":
 					ls.Decreases = c
+				case "iteration":
+					ls.Iteration = append(ls.Iteration, c)
 				default:
 					return fmt.Errorf("%s:%d: loop clause %q", file, line, what)
 				}
